@@ -113,6 +113,13 @@ CLAIMED = {
         "Trusted: z3, DSE engine, the reference expansion in fv/props/c13.py; graph attributes initialised as FortranGraph.__init__ does.",
         "DESIGN.md §5 C13",
     ),
+    "C16": (
+        "symbolic execution of parser + load_external_modules/dict2obj + Project.correlate on a symbolic project B against a really exported project A, decided by z3",
+        "For every combination of: B defines / does not define a module and a type named like one of A (several letter cases), USE spellings: B's own "
+        "entities win over A's, names only A defines link to A's exported entities, Project.find prefers local entities.",
+        "Trusted: z3, CV evaluator; A's modules.json is produced by the real dump_modules in the same run; local (file) external projects only.",
+        "DESIGN.md §5 C16",
+    ),
 }
 
 NOT_APPLICABLE = {
